@@ -146,7 +146,9 @@ class Runner:
                     what = 'sync --test-io-cache %d: parity write error (errno %d) on level %d at stripe %d (iteration %s of %d): exit %d, stripe recorded %s, stale parity %s' % (
                         n, errno, who, pos, iteration, T, r.rc, 'synced+healthy' if v['healthy'] else 'not healthy', pos in stale)
                     if n == 1 and r.rc == 0:
-                        key = KEY_MONO
+                        # F-C08-mono-writer-errors-lost was repaired in /repo (55c30f5): exit 0 in single-thread mode is a regression
+                        key = None
+                        what = 'REGRESSION of F-C08-mono-writer-errors-lost: ' + what
                     elif n > 1 and r.rc == 0:
                         # only the last n-1 queued stripes may legitimately (w.r.t. the model) be lost
                         key = KEY_LAST if (iteration is not None and iteration >= T - (n - 1)) else None
@@ -404,7 +406,7 @@ def scrub_cases(ref, scn, caches, quick):
 WITNESSES = [  # the vm_compute witnesses of coq/Fault/FaultProofs.v: 2 data disks x 8 blocks, one parity, all additions
     ('write_error_refuted_threaded_notlast', {'cache': 3, 'faults': [('wr', 0, 4, EIO)]}),
     ('write_error_refuted_threaded_last', {'cache': 3, 'faults': [('wr', 0, 8, EIO)]}),
-    ('write_error_refuted_mono', {'cache': 1, 'faults': [('wr', 0, 4, EIO)]}),
+    ('write_error_refuted_mono_recorded_synced', {'cache': 1, 'faults': [('wr', 0, 4, EIO)]}),
 ]
 
 
